@@ -2,7 +2,7 @@
   C05 model driver. One S-expression per line in, one out.
 
     (dt "<text>" "<rendering>"|none)                      → ok     -- RFC 3339 table (Go's parser is the parameter P)
-    (case field|directive <argdefs> <vardefs> <args> <raw>) → (res <outcome> <outcome, F-04d repaired> <coercion without the validation gate>)
+    (case field|directive <argdefs> <vardefs> <args> <raw>) → (res <outcome> <outcome before F-04d's repair (diagnostic only)> <coercion without the validation gate (diagnostic only)>)
     (lit <ty> <lit> <vars>)                               → (ok <goval>) | err      -- schema.CoerceLiteral
     (var <ty> <json>)                                     → (ok <goval>) | err      -- schema.CoerceVariableValue
     (vc <ty> <lit>)                                       → true | false            -- validateCoercion returns no error
@@ -15,7 +15,7 @@
     lit    := null | (var n) | (int z) | (float h) | (str s) | (bool b) | (enum n) | (list lit…) | (obj (k lit)…)
     json   := null | (num h) | (str s) | (bool b) | (list json…) | (obj (k json)…)
     cv     := null | (int z) | (half h) | (str s) | (bool b) | (enum n) | (list cv…) | (obj (k cv)…)
-    outcome:= invalid | reqerr | fielderr | swallowed | (ok (name goval)…)
+    outcome:= invalid | reqerr | fielderr | (ok (name goval)…)
 -/
 import ApiFu.Common.Sexp
 import ApiFu.Common.Loop
@@ -157,7 +157,6 @@ def outcomeSexp : Outcome → Sexp
   | .invalid => .atom "invalid"
   | .reqErr => .atom "reqerr"
   | .fieldErr => .atom "fielderr"
-  | .dropped => .atom "swallowed"
   | .invoked args => Sexp.node "ok" (args.map fun p => .list [.atom p.1, goValSexp p.2])
 
 def resSexp : Option GoVal → String
@@ -174,7 +173,7 @@ def handle (st : St) (line : String) : St × String :=
       let c : Case := { site := if site == "directive" then .directive else .field,
                         argDefs := ad, varDefs := vd, args := ar, raw := rw }
       let P := parseOf st
-      (st, toString (Sexp.node "res" [outcomeSexp (run P false c), outcomeSexp (run P true c),
+      (st, toString (Sexp.node "res" [outcomeSexp (run P true c), outcomeSexp (run P false c),
                                       outcomeSexp (coerceCase P c)]))
     | _, _, _, _ => (st, "bad-op")
   | some (.list [.atom "lit", t, l, vs]) =>
